@@ -5,6 +5,7 @@ from .. import cmpgen as G
 from .. import l2
 from .. import run as R
 from ..check import Prop
+from .. import sx
 
 CMP4 = ['Ord', 'PartialOrd', 'Eq', 'PartialEq']
 
@@ -67,8 +68,19 @@ class CmpProp(Prop):
                 variants.append((rng.random() < 0.5, fl))
             mode = 'attr' if rng.random() < 0.5 else 'derive'
             name = 'E' if is_enum else 'X'
-            req = G.make_item(name, variants, is_enum, traits, mode)
+            # explicit discriminants on some variants (with or without fields, under `#[repr(u8)]`): they change nothing -
+            # variants stay ordered by declaration position, fields are compared and hashed as without them
+            discrs = None
+            if is_enum and rng.random() < 0.25:
+                discrs = [str(10 * (i + 1)) if rng.random() < 0.6 else None for i in range(nvar)]
+                if not any(discrs):
+                    discrs[rng.randrange(nvar)] = '7'
+            req = G.make_item(name, variants, is_enum, traits, mode, discrs=discrs,
+                              item_attrs=[sx.a_other('repr ( u8 )')] if discrs else ())
             feats = {mode, 'enum%d' % nvar if is_enum else 'struct', 'traits:' + '+'.join(traits)}
+            if discrs:
+                feats.add('discriminants')
+                feats.add('discriminant-on-fields' if any(d and fl for d, (_, fl) in zip(discrs, variants)) else 'discriminant-on-unit')
             nontriv = False
             for _, fl in variants:
                 feats.add('fields%d' % len(fl))
